@@ -1,7 +1,7 @@
 """Failing-input search for C02 on the real code: count-min (min query) bounds and return values."""
 import core
 from corr.bloom import strategy
-from search.common import drive, keys_pool, shrink_ops
+from search.common import drive, keys_pool, noise_touch, shrink_ops
 
 
 def gen(rng):
@@ -28,6 +28,10 @@ def gen(rng):
     return {"dims": dims, "strat": rng.choice(["fnv", "md5", "custom", "dint:fnvseed"]), "keys": keys, "ops": ops}
 
 
+def step_twin(case):
+    return len(case["ops"]) % 2 == 0
+
+
 def check(case):
     from probables import CountMinSketch
 
@@ -35,7 +39,9 @@ def check(case):
     cms = CountMinSketch(hash_function=fn, **case["dims"])
     cnt = {}
     total = 0
+    twin = CountMinSketch(hash_function=fn, width=cms.width + 4, depth=cms.depth) if step_twin(case) else CountMinSketch(hash_function=fn, width=max(1, cms.width - 1) + 2, depth=cms.depth + 1)
     for step, (kind, key, n) in enumerate(case["ops"]):
+        noise_touch(twin, step)
         if kind.startswith("reload"):
             # the same history continues on the sketch loaded back from its export
             if kind == "reload-bytes":
